@@ -32,6 +32,21 @@ func (u UM) MarshalFlag() (string, error) {
 	return strings.TrimPrefix(u.V, "um:"), nil
 }
 
+// US is a string-kinded type with the same Unmarshaler / Marshaler behaviour as UM (its kind is string, its conversion is not).
+type US string
+
+func (u *US) UnmarshalFlag(s string) error {
+	if strings.HasPrefix(s, "!") {
+		return errors.New("um: refused")
+	}
+	*u = US("um:" + s)
+	return nil
+}
+
+func (u US) MarshalFlag() (string, error) {
+	return strings.TrimPrefix(string(u), "um:"), nil
+}
+
 // TB is a bool-kinded type with its own Unmarshaler: it takes an argument ("on" / "off") although its kind is bool.
 type TB bool
 
@@ -123,6 +138,7 @@ var typeByName = map[string]reflect.Type{
 	"float64":  reflect.TypeOf(float64(0)),
 	"duration": reflect.TypeOf(time.Duration(0)),
 	"um":       reflect.TypeOf(UM{}),
+	"us":       reflect.TypeOf(US("")),
 	"tb":       reflect.TypeOf(TB(false)),
 	"vv":       reflect.TypeOf(VV("")),
 	"cc":       reflect.TypeOf(CC("")),
